@@ -221,6 +221,11 @@ impl RtpHeader {
             if ext_id == 15 {
                 break;
             }
+            if offset + len > ext.data.len() {
+                // a received element whose length runs past the extension block:
+                // nothing valid can follow it, drop it instead of indexing past the end
+                break;
+            }
 
             if ext_id == id {
                 found = true;
